@@ -362,6 +362,14 @@ ares_status_t ares_array_claim_at(void *dest, size_t dest_size,
   }
 
   arr->cnt--;
+
+  /* Once empty there is nothing the offset needs to skip over.  Reset it,
+   * otherwise an array drained from the front up to the end of its allocation
+   * would be left with an offset no later insert can shift away. */
+  if (arr->cnt == 0) {
+    arr->offset = 0;
+  }
+
   return ARES_SUCCESS;
 }
 
